@@ -400,9 +400,127 @@ def check_C15(tier, seed):
     return rp.finish()
 
 
+# ------------------------------------------------------------------------------------------------
+SAN = ["-O1", "-g1", "-fsanitize=address,undefined", "-fno-sanitize-recover=all", "-fno-omit-frame-pointer"]
+
+
+def run_simple_engines(report, prop, engine, jobs, accept=None):
+    """jobs: list of dicts {src, cc, flags, defines, args, name}.  Build + run + parse."""
+    specs = [{"src": j["src"], "cc": j["cc"], "flags": j["flags"], "defines": j.get("defines"), "name": engine} for j in jobs]
+    t0 = time.time()
+    bins = build_many(specs)
+    log("[%s] built %d %s binaries in %.1fs" % (prop, len(specs), engine, time.time() - t0))
+    cmds, metas = [], []
+    for j, b in zip(jobs, bins):
+        if isinstance(b, BuildError):
+            if j.get("compile_failure_is_violation"):
+                report.add_violation("%s|%s|compile-rejected|%s" % (engine, prop, j["name"]),
+                                     "harness that compiles on the pinned tree was rejected by %s %s: %s" % (j["cc"], " ".join(j["flags"]), b.diag[-2500:]),
+                                     {"engine": engine, "replay_cmd": [j["cc"]] + j["flags"] + ["-I", os.path.join(svlib.HARNESS, "include"), "-I", svlib.HEADER_DIR,
+                                                                          "-fsyntax-only", os.path.join(svlib.HARNESS, "src", j["src"])]})
+            else:
+                report.add_inconclusive("harness build failed for %s: %s" % (j["name"], b.diag[-1500:]))
+            continue
+        cmds.append([b] + [str(a) for a in j["args"]])
+        metas.append({"engine": engine, "config": j["name"], "config_class": j.get("config_class", j["name"]), "mode": engine,
+                      "replay_cmd": [b] + [str(a) for a in j["args"]]})
+    results = run_many(cmds, timeout=3000)
+    for res, meta in zip(results, metas):
+        parse_engine_output(res, report, prop, meta, accept_props=accept or {prop})
+
+
+def check_C16(tier, seed):
+    rp = Report("C16", tier, seed, "exploration")
+    rp.rule = ("EXHAUSTIVE: all ordered pairs of sequences over {0,1,2} of length 0..4 (121^2 pairs) x inline-capacity pairs (0,0) (0,3) (3,0) (2,2) (2,5) (5,2), "
+               "inline and heap representations; ==, !=, <, <=, >, >= (and the sign of <=> in C++20) must equal std::vector's and be mutually consistent; "
+               "non-member erase / erase_if over all sequences x all values / 8 predicates; non-member begin..crend, size, ssize, empty, data, swap against the members; "
+               "tuple = (function, element type, N pair, lengths, ordering class, representations)")
+    rp.exhaustive = True
+    jobs = []
+    def job(cc, std, typ):
+        return {"src": "cmp.cpp", "cc": cc, "flags": ["-std=" + std] + SAN, "args": ["--type", typ], "name": "%s/%s/%s" % (cc, std, typ),
+                "config_class": "%s/%s" % (std, typ), "compile_failure_is_violation": True}
+    if tier == "quick":
+        for typ in ("int", "lteq", "double"):
+            jobs.append(job("g++", "c++17", typ))
+        for typ in ("int", "lteq", "ship", "partial"):
+            jobs.append(job("g++", "c++20", typ))
+    else:
+        for std in ("c++11", "c++14", "c++17", "c++20", "c++23"):
+            for typ in ("int", "lteq", "double") + (("ship", "partial") if std in ("c++20", "c++23") else ()):
+                jobs.append(job("g++", std, typ))
+        for std in ("c++11", "c++14", "c++17", "c++20"):
+            for typ in ("int", "lteq", "double") + (("ship", "partial") if std == "c++20" else ()):
+                jobs.append(job("clang++", std, typ))
+    run_simple_engines(rp, "C16", "cmp", jobs)
+    return rp.finish()
+
+def check_C14(tier, seed):
+    rp = Report("C14", tier, seed, "exploration")
+    rp.rule = ("per-operation predicate on every reallocating push_back/emplace_back/insert/emplace/append/resize/reserve/assign in growth-heavy random histories and the sweep "
+               "(new capacity >= required and >= old + old/2 unless it equals max_size()); long runs of n one-at-a-time appends for N in {0,1,8,40} (int and a counting type) must "
+               "perform <= ceil(log1.5 n)+4 allocations and <= 3n+N relocations; mixed growth (insert mid, append/insert ranges, resize, reserve, emplace) up to n elements; "
+               "tuple = (workload, element type, N, op, realloc/fit) and (op, state class, growth-ratio class)")
+    rp.assumptions = ["'1.5x' is read with integer floor (old + old/2)", "shrink_to_fit, copy-assignment between unequal allocators and constructors are not growth ops"]
+    mon = ["--monitors", "C14"]
+    plan = []
+    n = 1000000 if tier == "quick" else 50000000
+    if tier == "quick":
+        for k in ("int-std", "tnx-l000", "tthrow-l000", "tco-l010"):
+            plan.append(hist_run(Q[k], "asan-dbg", ["--mode", "random", "--focus", "grow", "--cases", 500, "--len", 60, "--seed", seed] + mon))
+            plan += shards(Q[k], "asan-dbg", ["--mode", "sweep", "--level", 0] + mon, 2)
+    else:
+        for k in Q:
+            plan.append(hist_run(Q[k], "asan-dbg-o1", ["--mode", "random", "--focus", "grow", "--cases", 8000, "--len", 60, "--seed", seed] + mon))
+            plan += shards(Q[k], "asan-dbg-o1", ["--mode", "sweep", "--level", 1] + mon, 2)
+    run_hist_plan(rp, "C14", plan)
+    jobs = []
+    for part in ("int", "cnt", "mixed"):
+        jobs.append({"src": "growth.cpp", "cc": "g++", "flags": ["-std=c++17", "-O2", "-DNDEBUG"], "args": ["--n", n if part != "mixed" else n // 5, "--seed", seed, "--part", part],
+                     "name": "growth/%s" % part, "config_class": "growth/%s" % part})
+    jobs.append({"src": "growth.cpp", "cc": "g++", "flags": ["-std=c++17"] + SAN, "args": ["--n", 30000, "--seed", seed + 1, "--part", "all"],
+                 "name": "growth/asan", "config_class": "growth/asan"})
+    run_simple_engines(rp, "C14", "growth", jobs)
+    floor(rp, "c14.reallocations", 1000, "reallocations checked in histories")
+    floor(rp, "reallocations-checked", 100, "reallocations checked in long runs")
+    return rp.finish()
+
+def check_C12(tier, seed):
+    rp = Report("C12", tier, seed, "exploration")
+    rp.rule = ("allocators with size_type uint8_t/uint16_t/uint32_t/size_t (optionally with a max_size() cap so that the 32/64-bit limits are reachable without memory), element sizes 1/2/4/8, "
+               "N in {0,4} and N > max_size(): for every op (push_back, emplace, insert n / input / forward / random range, append, assign, resize, reserve, ctor n / n,x / generator / ranges / copy from larger N) "
+               "the expected outcome is computed in 64-bit arithmetic: beyond max_size() -> std::length_error and an unchanged container, otherwise exact size and contents; allocate(n>max_size()) is flagged by the allocator, "
+               "ledger red zones + ASan catch writes past the block, capacity() must equal the ledger's n. uint8_t: EXHAUSTIVE over every size 0..max, every count 0..255 and every range length 0..300; "
+               "wider types: boundary sampling {0,1,2,edge-1,edge,edge+1,2edge+1,type_max-1,type_max,type_max-size(+1),type_max+1+k,2(type_max+1)+3} with memory-free counting iterators up to 2^34; "
+               "both assert-enabled and NDEBUG builds (the header's range-length check exists only without NDEBUG); tuple = (config, op, size class, count class, outcome)")
+    jobs = []
+    groups = (0, 1, 2, 3, 4)
+    for gidx in groups:
+        for flav, flags in (("dbg", ["-std=c++17", "-O1", "-g1", "-D_GLIBCXX_ASSERTIONS", "-fsanitize=address,undefined", "-fno-sanitize-recover=all"]),
+                            ("rel", ["-std=c++17", "-O2", "-g1", "-DNDEBUG", "-fsanitize=address,undefined", "-fno-sanitize-recover=all"])):
+            nsh = (8 if gidx == 0 else 2 if gidx == 4 else 1) if tier == "quick" else (12 if gidx == 0 else 2)
+            for sh in range(nsh):
+                jobs.append({"src": "limits.cpp", "cc": "g++", "flags": flags, "defines": {"LIM_GROUP": gidx},
+                             "args": ["--seed", seed, "--shard", sh, "--nshards", nsh], "name": "limits/g%d/%s" % (gidx, flav), "config_class": flav})
+    if tier != "quick":
+        for gidx in groups:
+            jobs.append({"src": "limits.cpp", "cc": "clang++", "flags": ["-std=c++20", "-O1", "-g1", "-DNDEBUG", "-fsanitize=address,undefined", "-fno-sanitize-recover=all", "-fno-sanitize=object-size"],
+                         "defines": {"LIM_GROUP": gidx}, "args": ["--seed", seed + 5], "name": "limits/g%d/clang-rel" % gidx, "config_class": "rel"})
+            for extra in range(1, 6):
+                if gidx == 0:
+                    continue
+                jobs.append({"src": "limits.cpp", "cc": "g++", "flags": ["-std=c++17", "-O2", "-g1", "-DNDEBUG", "-fsanitize=address,undefined", "-fno-sanitize-recover=all"],
+                             "defines": {"LIM_GROUP": gidx}, "args": ["--seed", seed + 100 * extra], "name": "limits/g%d/rel" % gidx, "config_class": "rel"})
+    run_simple_engines(rp, "C12", "limits", jobs)
+    floor(rp, "length_errors", 1000, "length_error outcomes observed")
+    rp.exhaustive = True
+    rp.extra["exhaustive_note"] = "exhaustive for the uint8_t configurations (every size, count 0..255, range length 0..300); boundary sampling for wider size types"
+    return rp.finish()
+
+
 CHECKS = {
     "C01": check_C01, "C02": check_C02, "C03": check_C03, "C04": check_C04, "C05": check_C05, "C06": check_C06,
-    "C07": check_C07, "C09": check_C09, "C10": check_C10, "C11": check_C11, "C15": check_C15,
+    "C07": check_C07, "C09": check_C09, "C10": check_C10, "C11": check_C11, "C15": check_C15, "C12": check_C12, "C14": check_C14, "C16": check_C16,
 }
 
 
